@@ -16,7 +16,7 @@ RULE = (
     "[-2, dim+2) x numpy/bool/float index types is executed.  Non-trivial: cases on non-square grids "
     "or conventions with several grid kinds (out-of-range probes are part of every case)."
 )
-LEVEL_TEXT = ('every grid kind x every linear index with margin x every native index with margin, on every grid shape up to 4x4 (5x1) of every convention and every mesh of the library, compared with row-major arithmetic; out-of-range must raise')
+LEVEL_TEXT = ('every grid kind x every linear index with margin x every native index with margin, on every grid shape up to 6x6 (11x2) of every convention and every mesh of the library, compared with row-major arithmetic; out-of-range must raise')
 LEVEL_NOTE = ('numpy, the builders in mc/builders.py; shapes above the bound are not explored')
 ASSUMPTIONS = [
     "numpy integer arithmetic; the reference is pure-Python row-major arithmetic over the sizes the builder chose",
@@ -28,7 +28,7 @@ LOW_MARGIN, HIGH_MARGIN = 3, 3
 
 def bounds(tier):
     return {
-        'shapes': 'each dimension in 1..3 plus 2x4, 4x2' if tier == 'quick' else 'each dimension in 1..4, plus 1x5, 5x1',
+        'shapes': 'each dimension in 1..3 plus 2x4, 4x2' if tier == 'quick' else 'each dimension in 1..6, plus 1x9, 9x1, 2x11, 11x2',
         'linear_margin': [LOW_MARGIN, HIGH_MARGIN], 'native_margin': 2,
         'meshes': 'M1 M4 M6 M7 (quick) / M1..M9 (thorough), with and without an edge dimension',
     }
@@ -39,7 +39,7 @@ def cases(tier):
         shapes = builders.shapes(3, 3) + [(2, 4), (4, 2)]
         meshes = ['M1', 'M4', 'M6', 'M7']
     else:
-        shapes = builders.shapes(4, 4) + [(1, 5), (5, 1)]
+        shapes = builders.shapes(6, 6) + [(1, 9), (9, 1), (2, 11), (11, 2)]
         meshes = ['M1', 'M2', 'M3', 'M4', 'M5', 'M6', 'M7', 'M8', 'M9']
     out = []
     for (a, b) in shapes:
